@@ -229,6 +229,10 @@ def gen_map(g):
     if fn == "logistic":
         c["r"] = g.choice([3.9, 2.5, 3.2, 1.0, 0.5 + 3.5 * g.random()])
         c["x0"] = g.choice([0.5, 0.25, 0.01 + 0.98 * g.random()])
+        if g.chance(0.2):
+            # a legal parameter beyond 4: the orbit leaves [0, 1] (and runs away, hence the few steps); it is still the map
+            c["r"] = g.choice([4.2, 4.5, 5.0])
+            c["n"] = g.randint(2, 5)
     elif fn == "henon":
         c["a"] = g.choice([1.4, 1.0, 0.2 + g.random()])
         c["b"] = g.choice([0.3, 0.1, -0.2, 0.3 * g.random()])
